@@ -62,7 +62,7 @@ def mesh_datagroup(m, cells):
     dg["position"] = osyris.Vector(*[P[:, d].copy() for d in range(ndim)], unit=m["unit"])
     dg["dx"] = osyris.Array(values=np.array([c["dx"] for c in cells], dtype=float), unit=m["unit"])
     dg["density"] = osyris.Array(values=g + 1.0, unit="g/cm**3")
-    dg["temperature"] = osyris.Array(values=1000.0 + 3.0 * g, unit="K")
+    dg["temperature"] = osyris.Array(values=(1000.0 + 3.0 * g).astype(np.float32), unit="K")  # single precision, exactly representable
     comps = [((g * 7 + 3 * d) % 23) - 11.0 + 0.5 * d for d in range(ndim)]
     dg["velocity"] = osyris.Vector(*comps, unit="cm/s")
     dg["mass"] = osyris.Array(values=np.ones(len(cells)), unit="g")
